@@ -11,6 +11,7 @@ tuple / axis tuple.
 -/
 import AbtemVerif.Model.ArrayObject
 import Mathlib.Tactic.Ring
+import Mathlib.Tactic.Linarith
 import Mathlib.Data.Rat.Defs
 
 namespace AbtemVerif.Props.C29
@@ -695,8 +696,7 @@ theorem linear_forward_slice_coordinates (t : Int) (off samp : Rat) (a b c : Opt
   push_cast
   ring
 
-/-- index lists and backward slices: the result is the ordinal axis whose k-th value is the coordinate of the k-th
-selected item -/
+/-- irregular index lists: the result is the ordinal axis whose k-th value is the coordinate of the k-th selected item -/
 theorem linear_list_coordinates (t : Int) (off samp : Rat) (idx : List Nat) (k : Nat) (hk : k < idx.length) :
     ∃ vals, axisGet (.linear t off samp) idx none = .ordinalQ t vals ∧ vals.length = idx.length ∧
       vals.getD k 0 = coord off samp (idx.getD k 0) := by
@@ -704,6 +704,137 @@ theorem linear_list_coordinates (t : Int) (off samp : Rat) (idx : List Nat) (k :
   rw [List.getD_eq_getElem?_getD, List.getElem?_map, List.getD_eq_getElem?_getD]
   have : idx[k]? = some idx[k] := List.getElem?_eq_getElem hk
   simp [this, coord]
+
+
+/-! ### linear axes keep their type under backward slices and evenly spaced index lists (follow-up fix) -/
+
+/-- every element of a backward range lies above its stop -/
+theorem pyRange_neg_gt (e st : Int) (hst : st < 0) : (fuel : Nat) → (s : Int) → ∀ v ∈ pyRange s e st fuel, v > e
+  | 0, s, v, h => by simp [pyRange] at h
+  | fuel + 1, s, v, h => by
+      unfold pyRange at h
+      by_cases hc : (decide (st > 0) && decide (s < e) || decide (st < 0) && decide (s > e)) = true
+      · simp only [hc, if_true, List.mem_cons] at h
+        rcases h with h | h
+        · subst h
+          simp only [Bool.or_eq_true, Bool.and_eq_true, decide_eq_true_eq] at hc
+          omega
+        · exact pyRange_neg_gt e st hst fuel (s + st) v h
+      · simp only [hc] at h; simp at h
+
+theorem pyRange_getD' (e st : Int) : (fuel : Nat) → (s : Int) → (k : Nat) →
+    k < (pyRange s e st fuel).length → (pyRange s e st fuel).getD k 0 = s + k * st
+  | 0, s, k, h => by simp [pyRange] at h
+  | fuel + 1, s, k, h => by
+      unfold pyRange at h ⊢
+      by_cases hc : (decide (st > 0) && decide (s < e) || decide (st < 0) && decide (s > e)) = true
+      · simp only [hc, if_true] at h ⊢
+        cases k with
+        | zero => simp
+        | succ k =>
+          simp only [List.length_cons, Nat.add_lt_add_iff_right] at h
+          simp only [List.getD_cons_succ]
+          rw [pyRange_getD' e st fuel (s + st) k h]
+          push_cast; ring
+      · simp only [hc] at h; simp at h
+
+/-- the k-th item selected by a BACKWARD slice is `start + k·step` (`start` = `item.indices(n)[0]`, `step < 0`) -/
+theorem sliceIndices_getD_backward (a b c : Option Int) (n : Nat) (idx : List Nat) (hstep : c.getD 1 < 0)
+    (h : sliceIndices a b c n = .ok idx) (k : Nat) (hk : k < idx.length) :
+    ((idx.getD k 0 : Nat) : Int) = sliceStart a c n + k * c.getD 1 := by
+  unfold sliceIndices at h
+  have h0 : (c.getD 1 == 0) = false := by
+    simp only [beq_eq_false_iff_ne, ne_eq]; omega
+  simp only [h0, Bool.false_eq_true, if_false, Except.ok.injEq] at h
+  subst h
+  simp only [List.length_map] at hk
+  have hp := pyRange_getD' _ (c.getD 1) (n + 1) (sliceStart a c n) k hk
+  rw [List.getD_eq_getElem?_getD, List.getElem?_map]
+  rw [List.getD_eq_getElem?_getD] at hp
+  cases hg : (pyRange (sliceStart a c n) _ (c.getD 1) (n + 1))[k]? with
+  | none =>
+    have := List.getElem?_eq_none_iff.mp hg
+    omega
+  | some v =>
+    rw [hg] at hp
+    simp only [Option.getD_some] at hp
+    simp only [Option.map_some, Option.getD_some]
+    have hmem : v ∈ pyRange (sliceStart a c n) _ (c.getD 1) (n + 1) := List.mem_of_getElem? hg
+    have hgt := pyRange_neg_gt _ (c.getD 1) hstep (n + 1) (sliceStart a c n) v hmem
+    have hv : 0 ≤ v := by
+      have : ¬ ((c.getD 1) < 0) = False := by simp [hstep]
+      revert hgt
+      cases b with
+      | none => simp [hstep]; omega
+      | some x =>
+        simp only [hstep, decide_true, if_true]
+        intro hgt
+        split at hgt <;> (try split at hgt) <;> omega
+    rw [Int.toNat_of_nonneg hv, hp]
+
+/-- SLICES OF LINEAR AXES, ANY DIRECTION.  For a slice with any non-zero step whose normalised start is an item of the axis, the
+result axis is linear (sampling multiplied by the step, negative for a backward slice) and its k-th coordinate is the coordinate
+of the k-th selected item: a reversed or subsampled scan stays a scan with the right coordinates. -/
+theorem linear_slice_coordinates (t : Int) (off samp : Rat) (a b c : Option Int) (n : Nat) (idx : List Nat)
+    (hstep : c.getD 1 ≠ 0) (h : sliceIndices a b c n = .ok idx) (k : Nat) (hk : k < idx.length) :
+    ∃ off' samp', axisGet (.linear t off samp) idx (some (sliceStart a c n, c.getD 1)) = .linear t off' samp' ∧
+      coord off' samp' k = coord off samp (idx.getD k 0) := by
+  refine ⟨off + (sliceStart a c n) * samp, samp * (c.getD 1), by simp [axisGet], ?_⟩
+  have hi : ((idx.getD k 0 : Nat) : Int) = sliceStart a c n + k * c.getD 1 := by
+    by_cases hpos : c.getD 1 ≥ 1
+    · exact sliceIndices_getD a b c n idx hpos h k hk
+    · exact sliceIndices_getD_backward a b c n idx (by omega) h k hk
+  simp only [coord]
+  have : ((idx.getD k 0 : Nat) : Rat) = ((sliceStart a c n + k * c.getD 1 : Int) : Rat) := by
+    rw [← hi]; simp
+  rw [this]
+  push_cast
+  ring
+
+theorem evenly_spec : (l : List Nat) → (step : Int) → evenly l step = true →
+    ∀ k, k < l.length → ((l.getD k 0 : Nat) : Int) = ((l.headD 0 : Nat) : Int) + k * step
+  | [], _, _, k, hk => by simp at hk
+  | [a], _, _, k, hk => by
+      simp only [List.length_singleton, Nat.lt_one_iff] at hk; subst hk; simp
+  | a :: b :: rest, step, h, k, hk => by
+      simp only [evenly, Bool.and_eq_true, beq_iff_eq] at h
+      cases k with
+      | zero => simp
+      | succ m =>
+        have ih := evenly_spec (b :: rest) step h.2 m (by simpa using hk)
+        simp only [List.getD_cons_succ, List.headD_cons] at ih ⊢
+        rw [ih]; push_cast; have := h.1; linarith [this]
+
+/-- what `regularList` returns really describes the list: `idx[k] = first + k·step` -/
+theorem regularList_spec (idx : List Nat) (first step : Int) (h : regularList idx = some (first, step)) :
+    ∀ k, k < idx.length → ((idx.getD k 0 : Nat) : Int) = first + k * step := by
+  intro k hk
+  match idx, h with
+  | [], _ => simp at hk
+  | [i], h =>
+    simp only [regularList, Option.some.injEq, Prod.mk.injEq] at h
+    simp only [List.length_singleton, Nat.lt_one_iff] at hk
+    subst hk; simp [← h.1]
+  | i :: j :: rest, h =>
+    simp only [regularList] at h
+    split at h
+    · rename_i hc
+      simp only [Option.some.injEq, Prod.mk.injEq] at h
+      obtain ⟨rfl, rfl⟩ := h
+      simp only [Bool.and_eq_true] at hc
+      simpa using evenly_spec (i :: j :: rest) _ hc.2 k hk
+    · simp at h
+
+
+/-- evenly spaced index lists (`idx[k] = first + k·step`) keep the axis linear with the coordinates of the selected items -/
+theorem linear_regular_list_coordinates (t : Int) (off samp : Rat) (idx : List Nat) (first step : Int) (k : Nat)
+    (hreg : ((idx.getD k 0 : Nat) : Int) = first + k * step) :
+    ∃ off' samp', axisGet (.linear t off samp) idx (some (first, step)) = .linear t off' samp' ∧
+      coord off' samp' k = coord off samp (idx.getD k 0) := by
+  refine ⟨off + first * samp, samp * step, by simp [axisGet], ?_⟩
+  simp only [coord]
+  have : ((idx.getD k 0 : Nat) : Rat) = ((first + k * step : Int) : Rat) := by rw [← hreg]; simp
+  rw [this]; push_cast; ring
 
 
 /-! ### non-vacuity -/
